@@ -10,7 +10,7 @@ broken harness and never a verdict.
 from vt.scan import fake, run, girread
 from vt.scan.fake import Func, Callback, Typedef, Struct, Enum, Const, Macro, Field, FieldCb
 
-INCLUDES = ['GObject-2.0']
+INCLUDES = ['GObject-2.0', 'Gio-2.0']
 
 
 def decls():
@@ -32,6 +32,13 @@ def decls():
         Func('foo_obj_set_prop', 'void', [('FooObj*', 'self'), ('int', 'v')]),
         Func('foo_obj_get_prop', 'int', [('FooObj*', 'self')]),
         Func('foo_obj_emit_sig', 'void', [('FooObj*', 'self'), ('int', 'v')]),
+        # ---- async families: class methods (heuristic pairing applies), with and without a sync sibling
+        Func('foo_obj_load_async', 'void', [('FooObj*', 'self'), ('GAsyncReadyCallback', 'callback'), ('gpointer', 'user_data')]),
+        Func('foo_obj_load_finish', 'gboolean', [('FooObj*', 'self'), ('GAsyncResult*', 'res'), ('GError**', 'error')]),
+        Func('foo_obj_load', 'gboolean', [('FooObj*', 'self'), ('GError**', 'error')]),
+        Func('foo_obj_load_alt', 'gboolean', [('FooObj*', 'self'), ('GError**', 'error')]),
+        Func('foo_obj_save_async', 'void', [('FooObj*', 'self'), ('GAsyncReadyCallback', 'callback'), ('gpointer', 'user_data')]),
+        Func('foo_obj_save_finish', 'gboolean', [('FooObj*', 'self'), ('GAsyncResult*', 'res'), ('GError**', 'error')]),
         # ---- subclass with the same property / signal / slot names ----------------
         Typedef('FooSub', 'struct _FooSub'), Typedef('FooSubClass', 'struct _FooSubClass'),
         Struct('_FooSub', [Field('parent_instance', 'FooObj')]),
@@ -54,6 +61,9 @@ def decls():
         Func('foo_rec_make', 'FooRec*', [('int', 'x')]),
         Func('foo_rec_get_x', 'int', [('FooRec*', 'rec')]),
         Func('foo_frob_rec', 'void', [('FooRec*', 'rec'), ('int', 'n')]),
+        Func('foo_rec_read_async', 'void', [('FooRec*', 'rec'), ('GAsyncReadyCallback', 'callback'), ('gpointer', 'user_data')]),
+        Func('foo_rec_read_finish', 'gboolean', [('FooRec*', 'rec'), ('GAsyncResult*', 'res'), ('GError**', 'error')]),
+        Func('foo_rec_read', 'gboolean', [('FooRec*', 'rec'), ('GError**', 'error')]),
         # ---- plain record, union ------------------------------------------------------
         Typedef('FooPlain', 'struct _FooPlain'),
         Struct('_FooPlain', [Field('a', 'int')]),
@@ -72,6 +82,9 @@ def decls():
         Func('foo_func', 'void', [('int', 'x')]),
         Func('foo_func_full', 'void', [('int', 'x'), ('int', 'y')]),
         Func('foo_other', 'int'),
+        Func('foo_fetch_async', 'void', [('GAsyncReadyCallback', 'callback'), ('gpointer', 'user_data')]),
+        Func('foo_fetch_finish', 'gboolean', [('GAsyncResult*', 'res'), ('GError**', 'error')]),
+        Func('foo_fetch', 'gboolean', [('GError**', 'error')]),
         Func('foo_use_types', 'void', [('FooEnum', 'e'), ('FooFlags', 'f'), ('FooAlias', 'a'),
                                        ('FooPlain*', 'p'), ('FooUni*', 'u')]),
         Macro('FOO_MACRO', ['a']),
@@ -117,8 +130,10 @@ TYPEINFO = {
 }
 
 
-def _fn(kind, cls=None, ret=None, first=None, vf=None, accessor=False):
-    return {'kind': kind, 'cls': cls, 'ret': ret, 'first': first, 'vf_by_name': vf, 'accessor': accessor}
+def _fn(kind, cls=None, ret=None, first=None, vf=None, accessor=False, fam=None):
+    # fam: async family (foo_async / foo_finish / foo / foo_alt share one)
+    return {'kind': kind, 'cls': cls, 'ret': ret, 'first': first, 'vf_by_name': vf, 'accessor': accessor,
+            'fam': fam}
 
 
 ELEMENTS = {
@@ -137,6 +152,18 @@ ELEMENTS = {
     'foo_obj_set_prop': _fn('method', 'class[Obj]', first='FooObj', accessor=True),
     'foo_obj_get_prop': _fn('method', 'class[Obj]', first='FooObj', accessor=True),
     'foo_obj_emit_sig': _fn('method', 'class[Obj]', first='FooObj'),
+    'foo_obj_load_async': _fn('method', 'class[Obj]', first='FooObj', fam='obj_load'),
+    'foo_obj_load_finish': _fn('method', 'class[Obj]', first='FooObj', fam='obj_load'),
+    'foo_obj_load': _fn('method', 'class[Obj]', first='FooObj', fam='obj_load'),
+    'foo_obj_load_alt': _fn('method', 'class[Obj]', first='FooObj', fam='obj_load'),
+    'foo_obj_save_async': _fn('method', 'class[Obj]', first='FooObj', fam='obj_save'),
+    'foo_obj_save_finish': _fn('method', 'class[Obj]', first='FooObj', fam='obj_save'),
+    'foo_rec_read_async': _fn('method', 'record[Rec]', first='FooRec', fam='rec_read'),
+    'foo_rec_read_finish': _fn('method', 'record[Rec]', first='FooRec', fam='rec_read'),
+    'foo_rec_read': _fn('method', 'record[Rec]', first='FooRec', fam='rec_read'),
+    'foo_fetch_async': _fn('function', fam='fetch'),
+    'foo_fetch_finish': _fn('function', fam='fetch'),
+    'foo_fetch': _fn('function', fam='fetch'),
     'foo_iface_ivirt': _fn('method', 'interface[Iface]', first='FooIface', vf='FooIfaceInterface::ivirt'),
     'foo_rec_new': _fn('ctor', 'record[Rec]', ret='FooRec'),
     'foo_rec_make': _fn('static', 'record[Rec]', ret='FooRec'),
@@ -196,7 +223,8 @@ for _n, _e in ELEMENTS.items():
         _e['id'] = 'fn:' + _n
 
 # methods of a class that exist / match a signal's signature (for setter/getter/emitter targets)
-METHOD_NAMES = {'class[Obj]': {'dup', 'do_thing', 'invoke', 'meth', 'set_prop', 'get_prop', 'emit_sig'},
+METHOD_NAMES = {'class[Obj]': {'dup', 'do_thing', 'invoke', 'meth', 'set_prop', 'get_prop', 'emit_sig', 'load_async',
+                               'load_finish', 'load', 'load_alt', 'save_async', 'save_finish'},
                 'interface[Iface]': {'ivirt'}}
 # emitter candidates: (class id, signal nparams) -> methods with that many non-instance parameters (all
 # signal parameters of the skeleton are gint) that return what the signal returns (void)
